@@ -8,6 +8,7 @@ import (
 	"bufio"
 	"fmt"
 	"io/ioutil"
+	"net/http"
 	"os"
 	"path"
 	"strconv"
@@ -31,6 +32,50 @@ type childCfg struct {
 	SegSize   int64
 	Keep      int
 	OptFsync  bool
+	// three-replica mode (follower lives): ID 1..3 of this replica, Base = first port of the group (replica j owns
+	// Base+(j-1)*5 ..+4), Root = the directory that holds the data directories n1, n2, n3, Blocked = start with the
+	// raft messages of the other replicas dropped (the node serves what it recovered, nothing else)
+	ID      int
+	Base    int
+	Root    string
+	Blocked bool
+}
+
+const nReplica = 3
+
+func replicaPort(base, id int) int { return base + (id-1)*5 }
+func replicaDir(root string, id int) string {
+	return path.Join(root, "n"+strconv.Itoa(id))
+}
+
+// peerInfo: the other replicas as sources of a snapshot's checkpoint (same host, different data root: the code
+// copies the checkpoint directory with cp instead of rsync)
+type peerInfo struct {
+	name string
+	id   int
+	base int
+	root string
+}
+
+func (ci *peerInfo) GetClusterName() string { return ci.name }
+func (ci *peerInfo) GetSnapshotSyncInfo(fullNS string) ([]common.SnapshotSyncInfo, error) {
+	var l []common.SnapshotSyncInfo
+	for j := 1; j <= nReplica; j++ {
+		l = append(l, common.SnapshotSyncInfo{ReplicaID: uint64(j), NodeID: uint64(j), RemoteAddr: "127.0.0.1",
+			HttpAPIPort: strconv.Itoa(replicaPort(ci.base, j) + 1), DataRoot: replicaDir(ci.root, j)})
+	}
+	return l, nil
+}
+func (ci *peerInfo) UpdateMeForNamespaceLeader(fullNS string) (bool, error) { return false, nil }
+
+func othersOf(id int) []uint64 {
+	var l []uint64
+	for j := 1; j <= nReplica; j++ {
+		if j != id {
+			l = append(l, uint64(j))
+		}
+	}
+	return l
 }
 
 func runChild(cfg childCfg) {
@@ -41,8 +86,16 @@ func runChild(cfg childCfg) {
 		ioutil.WriteFile(syncFile+".tmp", []byte(fmt.Sprintf("%s %d\n", tail, off)), 0644)
 		os.Rename(syncFile+".tmp", syncFile)
 	}
+	cluster := cfg.ID > 0
+	myID := 1
+	if cluster {
+		myID = cfg.ID
+		cfg.Dir = replicaDir(cfg.Root, cfg.ID)
+		cfg.Port = replicaPort(cfg.Base, cfg.ID)
+		os.MkdirAll(cfg.Dir, 0755)
+	}
 	if _, err := os.Stat(path.Join(cfg.Dir, "myid")); err != nil {
-		ioutil.WriteFile(path.Join(cfg.Dir, "myid"), []byte("1"), common.FILE_PERM)
+		ioutil.WriteFile(path.Join(cfg.Dir, "myid"), []byte(strconv.Itoa(myID)), common.FILE_PERM)
 	}
 	raftAddr := fmt.Sprintf("http://127.0.0.1:%d", cfg.Port+2)
 	opts := server.ServerConfig{
@@ -65,6 +118,14 @@ func runChild(cfg childCfg) {
 		fmt.Printf("FAIL newserver %v\n", err)
 		os.Exit(3)
 	}
+	var filter *server.VerifRaftFilter
+	if cluster {
+		kv.GetNsMgr().SetIClusterInfo(&peerInfo{name: opts.ClusterID, id: cfg.ID, base: cfg.Base, root: cfg.Root})
+		filter = kv.VerifInstallRaftFilter()
+		if cfg.Blocked {
+			filter.SetBlocked(othersOf(cfg.ID))
+		}
+	}
 	var replica node.ReplicaInfo
 	replica.NodeID = 1
 	replica.ReplicaID = 1
@@ -80,20 +141,62 @@ func runChild(cfg childCfg) {
 	nsConf.OptimizedFsync = cfg.OptFsync
 	nsConf.RaftGroupConf.GroupID = 1000
 	nsConf.RaftGroupConf.SeedNodes = append(nsConf.RaftGroupConf.SeedNodes, replica)
-	n, err := kv.InitKVNamespace(1, nsConf, false)
+	if cluster {
+		nsConf.Replicator = nReplica
+		// the leader keeps only a few entries behind its snapshot: a replica that was down during a snapshot gets MsgSnap
+		nsConf.SnapCatchup = 3
+		nsConf.RaftGroupConf.SeedNodes = nil
+		for j := 1; j <= nReplica; j++ {
+			nsConf.RaftGroupConf.SeedNodes = append(nsConf.RaftGroupConf.SeedNodes, node.ReplicaInfo{NodeID: uint64(j), ReplicaID: uint64(j),
+				RaftAddr: fmt.Sprintf("http://127.0.0.1:%d", replicaPort(cfg.Base, j)+2)})
+		}
+	}
+	n, err := kv.InitKVNamespace(uint64(myID), nsConf, false)
 	if err != nil {
 		// a node that cannot come back on its own data is what C06 forbids: the parent decides
 		fmt.Printf("FAIL initns %v\n", err)
 		os.Exit(4)
 	}
 	// nsMgr.Start ignores the error of the node start; start it here so that a failed recovery is seen at once
-	if err := n.Start(false); err != nil {
-		fmt.Printf("FAIL startraft %v\n", err)
-		os.Exit(4)
+	if cluster {
+		// with peers the transport has to run before the node starts; the namespace manager starts the node
+		// (and swallows its error): a node that did not become ready failed to start
+		kv.Start()
+		dl := time.Now().Add(30 * time.Second)
+		for !n.IsReady() {
+			if time.Now().After(dl) {
+				fmt.Printf("FAIL startraft not ready\n")
+				os.Exit(4)
+			}
+			time.Sleep(10 * time.Millisecond)
+		}
+	} else {
+		if err := n.Start(false); err != nil {
+			fmt.Printf("FAIL startraft %v\n", err)
+			os.Exit(4)
+		}
+		kv.Start()
 	}
-	kv.Start()
+	if cluster {
+		// reads are served by every replica (stale reads allowed): what a follower serves is what C06 looks at
+		okStale := false
+		for try := 0; try < 300 && !okStale; try++ {
+			resp, err := http.Post(fmt.Sprintf("http://127.0.0.1:%d/staleread?allow=true", cfg.Port+1), "application/json", nil)
+			if err == nil {
+				okStale = resp.StatusCode == 200
+				resp.Body.Close()
+			}
+			if !okStale {
+				time.Sleep(20 * time.Millisecond)
+			}
+		}
+		if !okStale {
+			fmt.Printf("FAIL staleread\n")
+			os.Exit(5)
+		}
+	}
 	deadline := time.Now().Add(25 * time.Second)
-	for !n.Node.IsLead() {
+	for !cluster && !n.Node.IsLead() {
 		if time.Now().After(deadline) {
 			fmt.Printf("FAIL noleader\n")
 			os.Exit(5)
@@ -115,6 +218,27 @@ func runChild(cfg childCfg) {
 			ms, _ := strconv.ParseInt(f[3], 10, 64)
 			common.VerifArmCrash(f[1], k, time.Duration(ms)*time.Millisecond)
 			fmt.Printf("ARMED\n")
+		}
+		if len(f) >= 1 && f[0] == "BLOCK" && filter != nil {
+			// BLOCK <id>...: drop the raft messages arriving from these replicas (none = heal)
+			var ids []uint64
+			for _, x := range f[1:] {
+				v, _ := strconv.ParseUint(x, 10, 64)
+				ids = append(ids, v)
+			}
+			filter.SetBlocked(ids)
+			fmt.Printf("BLOCKED\n")
+		}
+		if len(f) == 1 && f[0] == "STATUS" {
+			lead := 0
+			if n.Node.IsLead() {
+				lead = 1
+			}
+			var leader uint64
+			if m := n.Node.GetLeadMember(); m != nil {
+				leader = m.ID
+			}
+			fmt.Printf("STATUS %d %d %d %d\n", lead, leader, n.Node.GetAppliedIndex(), n.Node.GetRaftStatus().Commit)
 		}
 	}
 }
